@@ -620,6 +620,69 @@ func runC19(s *Sim) {
 			s.Fail("C19", "conversion", "Int16 %#x -> %v", uint16(u), r)
 		}
 	}
+	// ... and for several values per call (a block of registers read in one request), in both directions, with an
+	// independent statement of the layout: normal order = high word first, swapped = low word first, words big-endian
+	for i := 0; i < 4 && !s.Failed(); i++ {
+		n := 2 + wl.Draw(4)
+		us := make([]uint32, n)
+		is := make([]int32, n)
+		fs := make([]float32, n)
+		var hiFirst, loFirst []uint16
+		for k := range us {
+			us[k] = uint32(wl.Raw())
+			is[k] = int32(us[k])
+			fs[k] = math.Float32frombits(us[k])
+			hiFirst = append(hiFirst, uint16(us[k]>>16), uint16(us[k]))
+			loFirst = append(loFirst, uint16(us[k]), uint16(us[k]>>16))
+		}
+		eqRegs := func(a, b []uint16) bool {
+			if len(a) != len(b) {
+				return false
+			}
+			for i := range a {
+				if a[i] != b[i] {
+					return false
+				}
+			}
+			return true
+		}
+		check := func(what string, regs, want []uint16, back []uint32) {
+			if !eqRegs(regs, want) {
+				s.Fail("C19", "conversion", "%s of %d values %#x gives registers %#x, the layout is %#x", what, n, us, regs, want)
+				return
+			}
+			if len(back) != n {
+				s.Fail("C19", "conversion", "%s: %d values -> registers -> %d values", what, n, len(back))
+				return
+			}
+			for k := range back {
+				if back[k] != us[k] {
+					s.Fail("C19", "conversion", "%s: value %d of %d: %#x -> registers %#x -> %#x", what, k, n, us[k], regs, back[k])
+					return
+				}
+			}
+		}
+		bitsOfI := func(v []int32) []uint32 {
+			o := make([]uint32, len(v))
+			for i := range v {
+				o[i] = uint32(v[i])
+			}
+			return o
+		}
+		bitsOfF := func(v []float32) []uint32 {
+			o := make([]uint32, len(v))
+			for i := range v {
+				o[i] = math.Float32bits(v[i])
+			}
+			return o
+		}
+		check("Uint32", modbus.Uint32ToRegs(us), hiFirst, modbus.RegsToUint32(hiFirst))
+		check("Uint32 (swapped words)", modbus.Uint32ToRegsSwapRegs(us), loFirst, modbus.RegsToUint32SwapWords(loFirst))
+		check("Int32", modbus.Int32ToRegs(is), hiFirst, bitsOfI(modbus.RegsToInt32(hiFirst)))
+		check("Int32 (swapped words)", modbus.Int32ToRegsSwapWords(is), loFirst, bitsOfI(modbus.RegsToInt32SwapWords(loFirst)))
+		check("Float32", modbus.Float32ToRegs(fs), hiFirst, bitsOfF(modbus.RegsToFloat32(hiFirst)))
+		check("Float32 (swapped words)", modbus.Float32ToRegsSwapWords(fs), loFirst, bitsOfF(modbus.RegsToFloat32SwapWords(loFirst)))
+	}
 	s.Stats.NonTrivial = true
 	s.MixState(uint64(len(addrs))<<32 ^ uint64(id) ^ uint64(nCalls)<<16)
 }
